@@ -89,6 +89,74 @@ class _Apply(ast.NodeTransformer):
         return node
 
 
+def _kinds(sig):
+    return [("async " if sig.startswith("async ") else "")] + [("**" if x.startswith("**") else "*" if x.startswith("*") else "") for x in sig.replace("async ", "").split(",")]
+
+
+def _bound_names(node):
+    out = set()
+    for x in ast.walk(node):
+        if isinstance(x, ast.Name):
+            out.add(x.id)
+        elif isinstance(x, ast.arg):
+            out.add(x.arg)
+        elif isinstance(x, (ast.FunctionDef, ast.AsyncFunctionDef, ast.ClassDef)):
+            out.add(x.name)
+        elif isinstance(x, ast.alias):
+            out.add((x.asname or x.name).split(".")[0])
+        elif isinstance(x, (ast.Global, ast.Nonlocal)):
+            out.update(x.names)
+        elif isinstance(x, ast.ExceptHandler) and x.name:
+            out.add(x.name)
+    return out
+
+
+def param_renames(trees):
+    """A known helper whose parameters were renamed (same count, same kinds) is analysed under the parameter names the
+    rules know: the names are put back in its body and in the keyword arguments of its call sites.  Left alone when an
+    old name is already in use in the function or a nested scope binds one of the names again."""
+    done = []
+    for mod, tree in trees.items():
+        sigs = SIGNATURES.get(mod, {})
+        top = _toplevel(tree)
+        for fname, want in sigs.items():
+            st = top.get(fname)
+            if st is None:
+                continue
+            have = _sig(st)
+            if have == want or _kinds(have) != _kinds(want):
+                continue
+            strip = lambda x: x.lstrip("*")
+            hs = [strip(x) for x in have.replace("async ", "").split(",")]
+            ws = [strip(x) for x in want.replace("async ", "").split(",")]
+            ren = {h: w for h, w in zip(hs, ws) if h != w}
+            used = _bound_names(st)
+            if any(w in used for w in ren.values()):
+                continue
+            nested = [x for x in ast.walk(st) if x is not st and isinstance(x, (ast.FunctionDef, ast.AsyncFunctionDef, ast.Lambda))]
+            if any(a.arg in ren for n in nested for a in ast.walk(n.args) if isinstance(a, ast.arg)):
+                continue
+            for x in ast.walk(st):
+                if isinstance(x, ast.Name) and x.id in ren:
+                    x.id = ren[x.id]
+            a = st.args
+            for x in a.posonlyargs + a.args + a.kwonlyargs + ([a.vararg] if a.vararg else []) + ([a.kwarg] if a.kwarg else []):
+                if x.arg in ren:
+                    x.arg = ren[x.arg]
+            for m2, t2 in trees.items():
+                for c in ast.walk(t2):
+                    if not isinstance(c, ast.Call):
+                        continue
+                    f = c.func
+                    hit = (isinstance(f, ast.Name) and f.id == fname and m2 == mod) or (isinstance(f, ast.Attribute) and f.attr == fname and ((isinstance(f.value, ast.Attribute) and f.value.attr == mod) or (isinstance(f.value, ast.Name) and f.value.id == mod)))
+                    if hit:
+                        for kw in c.keywords:
+                            if kw.arg in ren:
+                                kw.arg = ren[kw.arg]
+            done.append("%s.%s parameters %s" % (mod, fname, ", ".join("%s (found as %s)" % (w, h) for h, w in sorted(ren.items()))))
+    return done
+
+
 def apply(trees):
     mapping = detect(trees)
     if mapping:
@@ -96,4 +164,4 @@ def apply(trees):
             for name, st in _toplevel(tree).items():
                 st._toplevel = True
             _Apply(mod, mapping).visit(tree)
-    return ["%s.%s (found as %s)" % (m, old, new) for (m, new), old in sorted(mapping.items())]
+    return ["%s.%s (found as %s)" % (m, old, new) for (m, new), old in sorted(mapping.items())] + param_renames(trees)
